@@ -195,3 +195,13 @@ package ingress
 
 //@ func NewForwardAuth
 //@   ensures [C08:forward_auth_targets_the_configured_url] result != nil && fresh(result) && result.URL == trim(url)
+
+// ---- C08: the secrets an authenticator is built with are the configured ones, byte for byte ----
+//@ func cloneByteSlices
+//@   loop 1 invariant [kept_so_far] rangeindex < len(in) && len(out) <= rangeindex + 1 && (forall k int :: 0 <= k && k < len(out) ==> len(out[k]) > 0 && exists j int :: 0 <= j && j <= rangeindex && in[j] == out[k]) && (forall j int :: 0 <= j && j <= rangeindex && len(in[j]) > 0 ==> exists k int :: 0 <= k && k < len(out) && out[k] == in[j])
+//@   ensures [C08:every_non_empty_secret_is_kept_unchanged] forall j int :: 0 <= j && j < len(in) && len(in[j]) > 0 ==> exists k int :: 0 <= k && k < len(result) && result[k] == in[j]
+//@   ensures [C08:nothing_else_becomes_a_secret] forall k int :: 0 <= k && k < len(result) ==> len(result[k]) > 0 && exists j int :: 0 <= j && j < len(in) && in[j] == result[k]
+
+//@ func NewHMACAuth
+//@   ensures [C08:a_route_with_a_non_empty_secret_is_protected] result != nil && fresh(result) && ((exists j int :: 0 <= j && j < len(secrets) && len(secrets[j]) > 0) ==> len(result.Secrets) > 0)
+//@   ensures [C08:the_authenticator_verifies_against_the_configured_secrets_only] forall k int :: 0 <= k && k < len(result.Secrets) ==> exists j int :: 0 <= j && j < len(secrets) && secrets[j] == result.Secrets[k]
